@@ -650,7 +650,7 @@ func (rt *RoutingTable) Clean() {
 			// Count entries in prefix.
 			if currentPrefix != rte.RoutingPrefix {
 				currentPrefix = rte.RoutingPrefix
-				rp, ok := rt.getRoutablePrefixConfig(rte.RoutingPrefix.Addr())
+				rp, ok := rt.getRoutablePrefixConfig(rte.DstIP)
 				if ok {
 					currentPrefixMax = rp.EntriesPerPrefix
 				} else {
